@@ -346,8 +346,10 @@ def reps_for(slot_, alt, valid_only=False):
     elif k == "numlist":
         n = alt.n
         if n in (2, 3, 4, 6):
+            # colours (3) and colour ranges (6) are written with integers by MapServer
+            intonly = alt.integer or n in (3, 6)
             for base in ([1, 2, 3, 4, 5, 6], [10, 20, 30, 40, 50, 60], [0, 0, 0, 0, 0, 0], [-1, -1, -1, -1, -1, -1],
-                         [0.5, 0.5, 0.5, 0.5, 0.5, 0.5] if not alt.integer else [255, 255, 255, 255, 255, 255]):
+                         [0.5, 0.5, 0.5, 0.5, 0.5, 0.5] if not intonly else [255, 255, 255, 255, 255, 255]):
                 vals = base[:n]
                 if n == 4 and not alt.integer and base[0] == 1:
                     vals = [1, 2.5, 3, 4]
